@@ -832,10 +832,17 @@ func (c *specCtx) call(n *SCall) (Val, types.Type) {
 		v, _ := arg(0)
 		return scalar(v.slCap()), untypedInt
 	case "arr":
-		v, _ := arg(0)
+		v, t := arg(0)
+		if _, isLocal := v.ann("").(*SliceX); isLocal && t != nil {
+			// a slice over a local array has no heap identity yet: give it one (the array moves to the heap)
+			v = c.e.materialise(c.st, v, t)
+		}
 		return scalar(v.slArr()), untypedInt
 	case "off":
-		v, _ := arg(0)
+		v, t := arg(0)
+		if _, isLocal := v.ann("").(*SliceX); isLocal && t != nil {
+			v = c.e.materialise(c.st, v, t)
+		}
 		return scalar(v.slOff()), untypedInt
 	case "val":
 		v, _ := arg(0)
@@ -972,6 +979,28 @@ func (c *specCtx) call(n *SCall) (Val, types.Type) {
 		v, _ := arg(0)
 		cur := c.ghostArr("held", SArrB)
 		return scalar(tb.Select(cur, c.e.mutexRef(v))), types.Typ[types.Bool]
+	case "apply":
+		// apply(f, args...): the result of calling the unknown (pure, deterministic) function value f - the same
+		// uninterpreted application the engine uses for calls through function values
+		fvv, ft := arg(0)
+		sig, ok := ft.Underlying().(*types.Signature)
+		if !ok || sig.Results().Len() != 1 {
+			c.fail("apply needs a function value with exactly one result")
+		}
+		flat := []*Term{fvv.T[0]}
+		for i := 1; i < len(n.Args); i++ {
+			av, _ := arg(i)
+			at := sig.Params().At(min(i-1, sig.Params().Len()-1)).Type()
+			av = c.e.flatten(c.st, at, av)
+			flat = append(flat, intTerms(tb, av.T)...)
+		}
+		RT := sig.Results().At(0).Type()
+		ls := Leaves(RT)
+		out := Val{T: make([]*Term, len(ls))}
+		for i, l := range ls {
+			out.T[i] = tb.App(fmt.Sprintf("fnval_%d_%d_%s%s", len(flat), 0, typeKey(RT), l.Path), l.Sort, flat...)
+		}
+		return out, RT
 	case "marked":
 		// marked("x"): the ghost mark x has been set (by the trusted contract of a function that must be shown to have been called)
 		v, _ := arg(0)
